@@ -48,6 +48,9 @@ var checks = map[string]func() int{
 	"C08": checkC08,
 	"C09": checkC09,
 	"C10": checkC10,
+	"C11": checkC11,
+	"C12": checkC12,
 	"C15": checkC15,
+	"C17": checkC17,
 	"C16": checkC16,
 }
